@@ -99,7 +99,13 @@ pub fn gen_case(seed: u64, idx: usize, acc: &mut Acc) -> Case {
     let mut cl = Classes::default();
     let from = if rng.chance(1, 3) { Some(ALL[rng.below(4)]) } else { None };
     let to = ALL[rng.below(4)];
-    let n = *rng.pick(&[1usize, 1, 1, 2, 3]);
+    // one invocation in sixty names 25-40 FIFOs (run under a limit of 20 open descriptors: each input is
+    // opened when its turn comes and closed when it is done)
+    let many_fifos = rng.chance(1, 60);
+    let n = if many_fifos { rng.range(25, 40) } else { *rng.pick(&[1usize, 1, 1, 2, 3]) };
+    if many_fifos {
+        acc.count("invocations_with_dozens_of_fifos");
+    }
     let mut inputs = vec![];
     let mut stdin = vec![];
     for i in 0..n {
@@ -110,6 +116,7 @@ pub fn gen_case(seed: u64, idx: usize, acc: &mut Acc) -> Case {
             acc.count(if bytes.is_empty() { "content_zero_length" } else { "content_blank_or_comment_only" });
         }
         let kind = match rng.below(12) {
+            _ if many_fifos => "fifo",
             0 | 1 | 2 => "stdin",
             3 | 4 => "fifo",
             5 if n > 1 => "directory",
@@ -118,7 +125,7 @@ pub fn gen_case(seed: u64, idx: usize, acc: &mut Acc) -> Case {
         };
         // a file of the proc file system: regular, reported size 0, mapping it fails (EIO or ENODEV) - the
         // reader fallback must take over; the content is whatever this machine has there
-        if rng.chance(1, 40) {
+        if !many_fifos && rng.chance(1, 40) {
             let name = *rng.pick(&["/proc/version", "/proc/sys/kernel/ostype", "/proc/filesystems", "/proc/cmdline"]);
             if let Ok(b) = std::fs::read(name) {
                 acc.count("content_of_a_procfs_file");
@@ -244,7 +251,8 @@ pub fn judge(case: &Case, acc: &mut Acc) {
             StdinKind::FileAtOffset(whole, prefix.len() as u64)
         }
     };
-    let out = procmon::run(Run { bin: &procmon::release_bin(), argv: argv.clone(), cwd: sc.path(), stdin, stdout: StdoutKind::Pipe, wall_secs: 60, cpu_secs: 20 });
+    let r = Run { bin: &procmon::release_bin(), argv: argv.clone(), cwd: sc.path(), stdin, stdout: StdoutKind::Pipe, wall_secs: 60, cpu_secs: 20 };
+    let out = if case.inputs.len() >= 25 { procmon::run_nofile(r, 20) } else { procmon::run(r) };
     for inp in &exp.inputs {
         acc.count(&format!("resolved_{}_{}", inp.1, inp.2));
     }
@@ -305,9 +313,9 @@ pub fn run(ctx: &Ctx) -> i32 {
         judge(&case, acc);
     });
     strace_sample(&mut acc);
-    let rule = format!("{} invocations: -f absent or each format x 1-3 inputs, each a regular file / FIFO / '-' (also twice; standard input a pipe, or a regular file at offset 0 or past earlier bytes; one run in five delivers pipe and FIFO content in bursts with pauses) / directory / missing file / (one in 40) a procfs file, which is regular, reports size 0 and cannot be mapped, named with every extension in random letter case, multi-dot, none or misleading, holding content of each format (1-3 generated documents), content valid in several formats, large documents with long multi-line strings (tens of KiB of output), or invalid content, x all targets; expected stdout and exit status computed by the library in the matching supply mode; distinct non-trivial = distinct invocations", n);
+    let rule = format!("{} invocations: -f absent or each format x 1-3 inputs, each a regular file / FIFO / '-' (also twice; standard input a pipe, or a regular file at offset 0 or past earlier bytes; one run in five delivers pipe and FIFO content in bursts with pauses) / directory / missing file / (one in 40) a procfs file / (one invocation in 60) 25-40 FIFOs under a limit of 20 open descriptors, which is regular, reports size 0 and cannot be mapped, named with every extension in random letter case, multi-dot, none or misleading, holding content of each format (1-3 generated documents), content valid in several formats, large documents with long multi-line strings (tens of KiB of output), or invalid content, x all targets; expected stdout and exit status computed by the library in the matching supply mode; distinct non-trivial = distinct invocations", n);
     ev::finish(
-        Finish { ctx, level: "exploration", rule, assumptions: vec!["document-less YAML regular files are kept out (recorded C02 finding)".into(), "strace counters are evidence that both supply modes were really observed, not an oracle".into()], extra: serde_json::Map::new(), exhaustive: false, min_distinct: 1000, must_reach: vec![("input_kind_fifo".into(), 200), ("input_kind_stdin".into(), 200), ("input_kind_regular".into(), 1000), ("extension_with_upper_case".into(), 500), ("extension_kind_multi_dot".into(), 200), ("stdin_named_twice".into(), 20), ("resolved_detect_slice".into(), 100), ("resolved_detect_reader".into(), 100), ("stdin_is_regular_file_at_later_offset".into(), 100), ("stdin_is_regular_file_at_offset_0".into(), 50), ("stdin_delivered_in_bursts".into(), 50), ("fifo_delivered_in_bursts".into(), 50), ("content_zero_length".into(), 100), ("input_names_not_utf8".into(), 100), ("content_large_multiline_content".into(), 100), ("input_kind_procfs".into(), 50)] },
+        Finish { ctx, level: "exploration", rule, assumptions: vec!["document-less YAML regular files are kept out (recorded C02 finding)".into(), "strace counters are evidence that both supply modes were really observed, not an oracle".into()], extra: serde_json::Map::new(), exhaustive: false, min_distinct: 1000, must_reach: vec![("input_kind_fifo".into(), 200), ("input_kind_stdin".into(), 200), ("input_kind_regular".into(), 1000), ("extension_with_upper_case".into(), 500), ("extension_kind_multi_dot".into(), 200), ("stdin_named_twice".into(), 20), ("resolved_detect_slice".into(), 100), ("resolved_detect_reader".into(), 100), ("stdin_is_regular_file_at_later_offset".into(), 100), ("stdin_is_regular_file_at_offset_0".into(), 50), ("stdin_delivered_in_bursts".into(), 50), ("fifo_delivered_in_bursts".into(), 50), ("content_zero_length".into(), 100), ("input_names_not_utf8".into(), 100), ("content_large_multiline_content".into(), 100), ("input_kind_procfs".into(), 50), ("invocations_with_dozens_of_fifos".into(), 30)] },
         acc,
     )
 }
